@@ -6,7 +6,7 @@ META = {
                    "update rule compared to the documented rule on every assignment of its conditions (SEL1), the --at-least decision "
                    "table (ATL1), single source of truth for the selected version (ONE1), flag validation table (FLG1), the SQL of the "
                    "two queries it reads (SQL1) and column/field agreement (VI2); planner pruning only under `not run_again` (PL7).",
-    "rules": ["GIT1", "SEL1", "ATL1", "ONE1", "FLG1", "SQL1", "VI2", "PL7"],
+    "rules": ["GIT1", "SEL1", "ATL1", "ONE1", "FLG1", "SQL1", "VI2", "PL7", "VI4", "VI5"],
     "assumptions": ["git computes ancestry and distance as documented", "totality over all histories is not decided: the five guarded cases are"],
     "trusted": ["ast parser", "SQL subset reader", "finite truth-table comparison over the branch conditions (conditions treated as independent booleans)"],
 }
@@ -20,5 +20,8 @@ def run(A, rep, tier):
     S.rule_flg1(A, rep)
     Q = V.rule_sql1(A, rep)
     V.rule_vi2(A, rep, Q)
+    # "newest" is "largest timestamp": a version generated later must get a larger one than everything recorded
+    V.rule_vi4(A, rep)
+    V.rule_vi5(A, rep)
     F = P.PlannerFacts(A)
     P.rules_planner_counts(A, rep, F)
